@@ -96,29 +96,86 @@ class Query:
                 pass
         return self.result
 
-    def check_cases(self, cases, per_case_timeout_s=120):
+    def check_cases(self, cases, per_case_timeout_s=120, nproc=12):
         """Exhaustive case split (the cases must cover every model of the base constraints; the caller
-        states why). sat as soon as one case is sat (its model is kept); unsat if all are unsat."""
+        states why). sat as soon as one case is sat (its model is kept); unsat if all are unsat.
+        The cases are distributed over forked workers; a sat case is re-solved in the parent for its model."""
+        import json as _json
         t0 = time.time()
         self.s.set("timeout", per_case_timeout_s * 1000)
         self.cases = {"n": len(cases), "sat": 0, "unsat": 0}
         self._model = None
-        for cs in cases:
+
+        def solve_one(cs):
             self.s.push()
             self.s.add(*cs)
             r = str(self.s.check())
-            if r == "sat":
-                self._model = self.s.model()
-                self.cases["sat"] += 1
-                self.s.pop()
-                break
-            if r == "unknown":
-                reason = self.s.reason_unknown()
-                self.s.pop()
-                self.time_s = time.time() - t0
-                raise Inconclusive("query %s: z3 answered unknown on one case of the split (%s)" % (self.name, reason))
-            self.cases["unsat"] += 1
+            m = self.s.model() if r == "sat" else None
+            reason = self.s.reason_unknown() if r == "unknown" else ""
             self.s.pop()
+            return r, m, reason
+
+        nproc = max(1, min(nproc, len(cases) // 4))
+        if nproc <= 1:
+            for cs in cases:
+                r, m, reason = solve_one(cs)
+                if r == "sat":
+                    self._model = m
+                    self.cases["sat"] += 1
+                    break
+                if r == "unknown":
+                    self.time_s = time.time() - t0
+                    raise Inconclusive("query %s: z3 answered unknown on one case of the split (%s)" % (self.name, reason))
+                self.cases["unsat"] += 1
+        else:
+            kids = []
+            for w in range(nproc):
+                rfd, wfd = os.pipe()
+                pid = os.fork()
+                if pid == 0:
+                    os.close(rfd)
+                    res = {"unsat": 0, "sat_index": None, "unknown": None}
+                    try:
+                        for idx in range(w, len(cases), nproc):
+                            r, _m, reason = solve_one(cases[idx])
+                            if r == "sat":
+                                res["sat_index"] = idx
+                                break
+                            if r == "unknown":
+                                res["unknown"] = reason or "unknown"
+                                break
+                            res["unsat"] += 1
+                    except BaseException as e:
+                        res["unknown"] = "worker failed: %r" % (e,)
+                    with os.fdopen(wfd, "w") as f:
+                        f.write(_json.dumps(res))
+                    os._exit(0)
+                os.close(wfd)
+                kids.append((pid, rfd))
+            sat_idx, unknowns = [], []
+            for pid, rfd in kids:
+                with os.fdopen(rfd) as f:
+                    data = f.read()
+                os.waitpid(pid, 0)
+                try:
+                    res = _json.loads(data)
+                except ValueError:
+                    unknowns.append("worker died")
+                    continue
+                self.cases["unsat"] += res["unsat"]
+                if res["sat_index"] is not None:
+                    sat_idx.append(res["sat_index"])
+                if res["unknown"]:
+                    unknowns.append(res["unknown"])
+            if sat_idx:
+                r, m, reason = solve_one(cases[min(sat_idx)])
+                if r != "sat":
+                    raise Inconclusive("query %s: a worker reported sat but the parent could not reproduce the model" % self.name)
+                self._model = m
+                self.cases["sat"] += 1
+            elif unknowns:
+                self.time_s = time.time() - t0
+                raise Inconclusive("query %s: z3 answered unknown on a case of the split (%s)" % (self.name, unknowns[0]))
         self.time_s = time.time() - t0
         self.result = "sat" if self._model is not None else "unsat"
         return self.result
